@@ -19,7 +19,7 @@ from .. import tool
 PROP = "C01"
 LEVEL = "exploration"
 RUNS = {"quick": 1500, "thorough": 60000}
-TIME_CAP = {"quick": 300, "thorough": 1500}
+TIME_CAP = {"quick": 300, "thorough": 900}
 CHUNK = 8          # runs per worker task (cost-aware: keeps the time cap responsive)
 RULE = ("seeded AKAI logical models (1-3 partitions x 0-4 volumes x 0-8 files; sample lengths incl. 0, 1 and k*8192-140 +-2 "
         "bytes; start/end markers; rates incl. 0; S1000/S3000 type bytes; L/R pairs of equal length) serialised by an "
